@@ -269,7 +269,7 @@ PROPS = {
     "C17": {
         "level": "exploration",
         "race": True,
-        "jobs": [{"test": "TestC17", "kind": "rapid", "quick": 4800, "thorough": 120000, "race": True, "shards": 48, "gomaxprocs": [2, 4, 8, 16, 3, 16, 1, 6]}],
+        "jobs": [{"test": "TestC17", "kind": "rapid", "quick": 4800, "thorough": 60000, "race": True, "shards": 48, "gomaxprocs": [2, 4, 8, 16, 3, 16, 1, 6]}],
         "parallel": 8,
         "floors": {"goroutines=8": ("job:TestC17", 0.3), "goroutines=32": ("job:TestC17", 0.05)},
         "rule": "rapid draws shared objects (an item template with variables and ellipses, a data message around it, a complete message, an SML text - sometimes with an error - and an "
